@@ -142,16 +142,18 @@ Proof.
     + destruct oi as [i|]; [phi_leaf | apply Hrest].
 Qed.
 
-Lemma ephi_print_dirs l : (forall x, In x (flat_map dir_subs l) -> Phi (w x)) -> Phi (print_dirs cf w l).
+Lemma ephi_print_dirs l : (forall x, In x (flat_map dir_subs l) -> Phi (w x)) -> forall v, Phi (print_dirs cf w l v).
 Proof.
-  induction l as [|d r IH]; intros H; cbn [print_dirs]; [phi_leaf|].
-  assert (Hr : Phi (print_dirs cf w r)).
+  induction l as [|d r IH]; intros H v; cbn [print_dirs]; [phi_leaf|].
+  assert (Hr : forall v', Phi (print_dirs cf w r v')).
   { apply IH. intros y Hy. apply H. apply in_flat_map_tl. exact Hy. }
   destruct d; try phi_leaf.
   destruct (lookup_directive name) as [[arglens ?]|]; [|phi_leaf].
   destruct (negb _); [phi_leaf|].
   phi_bind; [apply ephi_eval_list; intros y Hy; apply H; apply in_flat_map_hd; exact Hy|].
-  phi_bind; [exact Hr|]. phi_leaf.
+  phi_bind; [apply (wse_lift L); apply (psse_string PS)|].
+  phi_bind; [apply (wse_lift L); apply (psse_print PS)|].
+  phi_bind; [apply Hr|]. phi_leaf.
 Qed.
 
 Lemma ephi_if_conds cs : (forall x, In x (flat_map cond_subs cs) -> Phi (w x)) -> Phi (if_conds w cs).
@@ -281,7 +283,7 @@ Proof.
   - (* NRawText *) phi_bind; phi_leaf.
   - (* NPrint *)
     phi_bind; [apply H; left; reflexivity|].
-    assert (Hrest : Phi (ds <-- print_dirs cf w dirs ;;;
+    assert (Hrest : Phi (ds <-- print_dirs cf w dirs x ;;;
                          s <-- lift (value_string x) ;;;
                          st <-- get ;;;
                          ws <-- lift (print_writes (mode st) ds s) ;;;
